@@ -2242,6 +2242,19 @@ impl<'t, 'd> Gen<'t, 'd> {
                     if self.had_group_take && ord.ordered { self.touch("group_take_sort_agg"); }
                     self.gen_group(frame, ord)
                 }
+                8 if self.helpers_ok() && self.t.chance(1, 4) => {
+                    // a windowed value used directly by a filter inside `window <frame> (..)`:
+                    // the frame applies to the filter's function call as it would in a derive
+                    let wf = self.gen_wframe(&ord.clone());
+                    if self.wild_prog { self.touch("wild_helpers"); }
+                    let (we, ty) = self.win_expr(frame, &ord.clone(), wf);
+                    let cmp = match ty {
+                        Ty::Int | Ty::Float => Expr::bin(BinOp::Gt, we, self.lit(Ty::Int)),
+                        Ty::Text => Expr::bin(BinOp::Ne, we, self.lit(Ty::Text)),
+                        Ty::Bool => we,
+                    };
+                    Some(Step::Window { frame: wf, inner: vec![Step::Filter(cmp)] })
+                }
                 8 => {
                     let wf = self.gen_wframe(&ord.clone());
                     let before = frame.cols.len();
@@ -2274,6 +2287,7 @@ impl<'t, 'd> Gen<'t, 'd> {
                 }
                 _ => {
                     let refs = self.cols_of(frame, &|_| true);
+                    let mut return_two: Option<Step> = None;
                     if refs.len() >= 2 && frame.cols.iter().all(|c| c.name.is_some()) {
                         let (i, text) = refs[self.t.choose(refs.len())].clone();
                         let required = Self::all_deps(&frame.cols);
@@ -2291,8 +2305,29 @@ impl<'t, 'd> Gen<'t, 'd> {
                             if ord.ordered { self.touch("wild_except_sorted"); }
                             self.n_wild_except += 1;
                         }
-                        frame.cols.remove(i);
-                        Some(Step::SelectExcept(vec![ColRef { idx: i, text }]))
+                        // sometimes a second column, of another relation (two exclusion lists in one frame)
+                        let other: Vec<(usize, String)> = refs
+                            .iter()
+                            .filter(|(j, _)| *j != i && frame.cols[*j].rel != frame.cols[i].rel && frame.cols[*j].rel.is_some())
+                            .cloned()
+                            .collect();
+                        if !other.is_empty() && refs.len() >= 3 && self.t.chance(1, 2) {
+                            let (j, text2) = other[self.t.choose(other.len())].clone();
+                            let mut rest2 = frame.cols.clone();
+                            rest2.remove(i.max(j));
+                            rest2.remove(i.min(j));
+                            if Self::all_deps(&rest2).len() == required.len() || self.haz("drop_agg") {
+                                frame.cols.remove(i.max(j));
+                                frame.cols.remove(i.min(j));
+                                return_two = Some(Step::SelectExcept(vec![ColRef { idx: i, text: text.clone() }, ColRef { idx: j, text: text2 }]));
+                            }
+                        }
+                        if let Some(st) = return_two.take() {
+                            Some(st)
+                        } else {
+                            frame.cols.remove(i);
+                            Some(Step::SelectExcept(vec![ColRef { idx: i, text }]))
+                        }
                     } else {
                         None
                     }
